@@ -65,6 +65,18 @@ Proof.
     intros H; inversion H.
 Qed.
 
+(* since the repair (a content shorter than an address is reported and skipped) no content at all
+   can make a step panic *)
+Lemma step_never_panics col m c' : step col m <> (c', SPanic).
+Proof.
+  unfold recover_step. destruct m as [[[c|] [s|]]|]; cbn [m_content m_sig]; try (intros H; inversion H; fail).
+  destruct (Z.of_nat (length (col ++ [s])) <? t); [intros H; inversion H|].
+  destruct (recover_cases O L nmax NL d0 dec pub (hm_of c) n (col ++ [s]) t Hn Hpub) as [E|E]; rewrite E.
+  - intros H; inversion H.
+  - destruct (feqb O _ _); [|intros H; inversion H].
+    destruct (strip c); intros H; inversion H.
+Qed.
+
 (* what a report is: the group signature on a content that some message carried, and the
    content without its last 20 bytes *)
 Theorem stage_safety : forall ms col r sg,
@@ -97,6 +109,14 @@ Theorem report_verifies_on_chain ms col r sg :
 Proof.
   intros H. destruct (stage_safety ms col r sg H) as [c [s [_ [Hsg Hst]]]].
   destruct (strip_ok_split c r Hst) as [a [Ha Hc]]. exists c, a. repeat split; assumption.
+Qed.
+
+Theorem stage_never_panics : forall ms col, run col ms <> SPanic.
+Proof.
+  induction ms as [|m ms IH]; intros col; [discriminate|].
+  cbn [run_stage]. destruct (step col m) as [c' o] eqn:Es.
+  destruct o; [apply IH|discriminate|].
+  exfalso. exact (step_never_panics col m c' Es).
 Qed.
 
 (* no panic, provided every content is at least an address long *)
